@@ -16,7 +16,7 @@ variable {K : Type} [Field K] [LinearOrder K] [IsStrictOrderedRing K]
 theorem logZ_correct (d : Dom) (cliques : List Clique) (t : Tree) (order : List (Clique × Clique))
     (pots : CliqueVec (LogOf K)) (hok : ModelOK d cliques t order pots) :
     (logZ cliques order pots).v = partition d pots :=
-  Sem.logZ_correct d cliques t order pots hok
+  Sem.BP.logZ_correct d cliques t order pots hok
 
 /-- **exact inference is exact**: for every junction tree, every accepted message schedule, every
 nonnegative potential (zeros = `-∞` included) and every total, each returned clique table is
@@ -27,7 +27,7 @@ theorem bp_marginals (d : Dom) (cliques : List Clique) (t : Tree) (order : List 
     ((beliefPropagation cliques order pots total).get c).dom.attrs = (pots.get c).dom.attrs ∧
     (((beliefPropagation cliques order pots total).get c).sem σ).v
       = total.v * marginal d pots c σ / partition d pots :=
-  Sem.bp_marginals d cliques t order pots hok total hZ c hc σ hσ
+  Sem.BP.bp_marginals d cliques t order pots hok total hZ c hc σ hσ
 
 /-- **schedule independence**: any two dependency-respecting message orders give the same tables -/
 theorem bp_schedule_indep (d : Dom) (cliques : List Clique) (t : Tree)
